@@ -34,7 +34,20 @@ def run(prop, wd, thorough):
              and a not in ('Drop', 'RunEndThenAcquire', 'Next')]
     if never:
         die_tool('NucleoMC.tla: actions never taken in the bounded model (vacuity): %s' % never)
-    return {'protocol_model_states': st['distinct'], 'protocol_model_transitions': st['generated'], 'protocol_model_depth': st['depth'],
+    live = {}
+    if prop == 'C13':
+        # the temporal form on a small instance: under weak fairness of worker, closure tails, injectors and the
+        # tick in progress, a tick that reported running is always followed by a notification
+        lcfg = os.path.join(wd, 'NucleoLive.cfg')
+        open(lcfg, 'w').write('SPECIFICATION FairSpec\nCONSTANTS N = 2\n MaxStreams = 1\n MaxTicks = %d\n MaxEdits = 1\n SortInflight = TRUE\n Pats = {0, 1, 2, 3}\n Appendable = {0, 1, 2, 3}\nPROPERTY EventuallyNotified\nCHECK_DEADLOCK FALSE\n'
+                              % (3 if thorough else 2))
+        rc2, out2 = tlc('NucleoLive.tla', cfg=lcfg, workers=NCPU, timeout=6000, xmx='24g')
+        st2 = tlc_stats(out2)
+        if tlc_failed(rc2, out2) or not st2['completed'] or 'was violated' in out2 or 'is violated' in out2:
+            die_tool('NucleoLive.tla: the liveness form of C13 fails on the protocol model or TLC did not finish (oracle defect, not a verdict)\n' + out2[-3000:])
+        live = {'protocol_model_liveness': 'EventuallyNotified (Waiting ~> notified) under weak fairness: holds', 'protocol_model_liveness_states': st2['distinct']}
+        st = dict(st, distinct=st['distinct'] + st2['distinct'], generated=st['generated'] + st2['generated'])
+    return dict(live, **{'protocol_model_states': st['distinct'], 'protocol_model_transitions': st['generated'], 'protocol_model_depth': st['depth'],
             'protocol_model_constants': {'N': 2, 'MaxStreams': streams, 'MaxTicks': ticks, 'MaxEdits': edits},
             'protocol_model_invariants': INVS[prop],
-            'protocol_model_action_counts': {a: c['distinct'] for a, c in acts.items() if a[0].isupper()}}, st['distinct'], st['generated']
+            'protocol_model_action_counts': {a: c['distinct'] for a, c in acts.items() if a[0].isupper()}}), st['distinct'], st['generated']
